@@ -242,7 +242,28 @@ func (t *Task) Delete(pg wpg.Conn, n uint64) error {
 	if err != nil {
 		return fmt.Errorf("deleting block from task table: %w", err)
 	}
-	err = t.dests[0].Delete(t.ctx, pg, n)
+	// Rows are written in batches that end at a recorded position. The
+	// position falls back to the previous record (if any), so every row
+	// above that record has to go, not only the rows of block n.
+	const pq = `
+		select num, hash
+		from shovel.task_updates
+		where src_name = $1
+		and ig_name = $2
+		order by num desc
+		limit 1
+	`
+	first, prevNum, prevHash := uint64(0), uint64(0), []byte{}
+	err = pg.QueryRow(t.ctx, pq, t.srcName, t.destConfig.Name).Scan(&prevNum, &prevHash)
+	switch {
+	case errors.Is(err, pgx.ErrNoRows):
+		first = 0
+	case err != nil:
+		return fmt.Errorf("querying for previous position: %w", err)
+	default:
+		first = prevNum + 1
+	}
+	err = t.dests[0].Delete(t.ctx, pg, first)
 	if err != nil {
 		return fmt.Errorf("deleting block: %w", err)
 	}
